@@ -3,11 +3,13 @@
 package main
 
 import (
+	"encoding/json"
 	"flag"
 	"fmt"
 	"os"
 	"sort"
 	"strconv"
+	"strings"
 	"time"
 
 	"redactverif/load"
@@ -23,6 +25,7 @@ func main() {
 	debug := flag.String("debug", "", "debug dump: abuf|afmt|labels")
 	only := flag.String("rule", "", "run a single rule id")
 	oracle := flag.String("oracle", "/verif/checker/oracle", "directory of the reference fmt sources")
+	replay := flag.String("replay", "", "re-evaluate the obligation recorded in a replay file on the current tree")
 	genEvo := flag.Bool("gen-evolution", false, "developer command: regenerate oracle/*/evolution.json from the current tree")
 	flag.Parse()
 	if t := os.Getenv("VERIF_TIER"); t != "" && *tier == "quick" {
@@ -55,6 +58,9 @@ func main() {
 	if *debug != "" {
 		rules.Debug(ctx, *debug)
 		return
+	}
+	if *replay != "" {
+		os.Exit(doReplay(ctx, *replay))
 	}
 	ids, ok := rules.Properties[*prop]
 	if !ok {
@@ -112,4 +118,44 @@ func main() {
 	}
 	code := v.Emit(*verif+"/evidence", time.Since(start).Seconds(), seed, extra)
 	os.Exit(code)
+}
+
+// doReplay re-runs the rule named in a replay file and reports whether the
+// recorded construct still violates it.
+func doReplay(ctx *rules.Ctx, path string) int {
+	b, err := os.ReadFile(path)
+	if err != nil {
+		fmt.Println("cannot read replay file:", err)
+		return 2
+	}
+	var rec struct {
+		Property string         `json:"property"`
+		Finding  report.Finding `json:"finding"`
+	}
+	if err := json.Unmarshal(b, &rec); err != nil {
+		fmt.Println("malformed replay file:", err)
+		return 2
+	}
+	rule := rec.Finding.Rule
+	base := strings.TrimSuffix(rule, "@386")
+	var f rules.RuleFunc
+	for id, fn := range rules.Registry {
+		if base == id || strings.HasPrefix(base, id+"/") {
+			f = fn
+		}
+	}
+	if f == nil {
+		fmt.Printf("rule %s is not known to this checker\n", rule)
+		return 2
+	}
+	for _, r := range f(ctx) {
+		for _, fd := range r.Findings {
+			if fd.Construct == rec.Finding.Construct && (fd.Rule == base || r.Rule == base) {
+				fmt.Printf("VIOLATION property=%s replay=%s\n  rule %s at %s: %s\n  construct: %s\n", rec.Property, path, fd.Rule, fd.Pos, fd.Msg, fd.Construct)
+				return 1
+			}
+		}
+	}
+	fmt.Printf("OK the obligation (%s, %s) holds on the current tree\n", rule, rec.Finding.Construct)
+	return 0
 }
